@@ -59,7 +59,7 @@ let () =
           let fs = mk_fs rest in
           let root = fst (Stdlib.List.hd fs) in
           let banned = Stdlib.List.filter_map (fun i -> Stdlib.List.nth_opt all_kinds i) ban in
-          match scan_forest (ask "schema") (ask "enum") fs banned root with
+          match scan_forest_with infinite_fuel (ask "schema") (ask "enum") fs banned root with
           | CErr e -> render_err fs e
           | CPanic _ -> "panic"
           | CFuel -> "fuel"
